@@ -367,6 +367,21 @@ def node_main(args):
         except Exception as e:
             rec['error'] = f'{type(e).__name__}: {e}'[:300]
         out.append(rec)
+        # fixed regression scenario for finding F9 (repaired): bounds given as int by
+        # set_upper_bounds vs re-created as float by fix_parameters, in both orders
+        rec = {'index': -2, 'family': 'commute', 'history': [],
+               'pair': [['upper(POP_CL)', 'fix(POP_CL)'], ['fix(POP_CL)', 'upper(POP_CL)']]}
+        try:
+            import pharmpy.modeling as pm
+            X = pm.fix_parameters(pm.set_upper_bounds(base, {'POP_CL': 10}), 'POP_CL')
+            Y = pm.set_upper_bounds(pm.fix_parameters(base, 'POP_CL'), {'POP_CL': 10})
+            rec['A'] = _facts(base, ModelHash)
+            rec['X'] = _facts(X, ModelHash)
+            rec['Y'] = _facts(Y, ModelHash)
+            rec['eq'] = bool(X == Y)
+        except Exception as e:
+            rec['error'] = f'{type(e).__name__}: {e}'[:300]
+        out.append(rec)
     del stored
     with open(args.out, 'w') as fh:
         json.dump(out, fh)
